@@ -149,6 +149,11 @@ def enum_members(module: str, classname: str) -> Dict[str, Any]:
                         out[s.targets[0].id] = ast.literal_eval(s.value)
                     except Exception:
                         pass
+                elif isinstance(s, ast.AnnAssign) and isinstance(s.target, ast.Name) and s.value is not None:
+                    try:
+                        out[s.target.id] = ast.literal_eval(s.value)
+                    except Exception:
+                        pass
             return out
     raise ExtractError(f"enum {module}.{classname} not found")
 
